@@ -59,6 +59,11 @@ CHECKS = {
              "confirm on all paths: only DeclarationError escapes, a rejected call leaves the receiver's registry "
              "untouched, a fixed value validates against the returned schema, re-declaration is rejected.",
         design="4/C10"),
+    "C13": dict(
+        text="Bounded symbolic execution of the combinators with relational oracles: the real validator on the "
+             "operands decides what |, any, +, make_required and alias must accept; bounds, key flags, presence "
+             "flags and leaves are solver variables; member identity via [] and iteration is asserted.",
+        design="4/C13"),
 }
 
 NOT_YET = {
